@@ -146,12 +146,28 @@ def no_content_cache(repo, col):
                     and n.func.attr in ("setdefault", "update") and \
                     norm(n.func.value).startswith("self."):
                 stores.append(n)
+        ci_ = repo.cls(ms, cls)
+        meths_ = set()
+        for c_ in repo.mro(ci_):
+            meths_ |= set(c_.methods)
+
+        def from_map(v):
+            """self._x[k] / self._x.get(k): contents kept on the object (a
+            call of one of the class's own methods reads them now)."""
+            if isinstance(v, ast.Subscript):
+                return norm(v.value).startswith("self._")
+            if isinstance(v, ast.Call) and isinstance(v.func, ast.Attribute):
+                if isinstance(v.func.value, ast.Name) and \
+                        v.func.value.id == "self":
+                    return False            # a method of the accessor
+                return norm(v.func.value).startswith("self._") and \
+                    v.func.attr in ("get", "setdefault", "pop",
+                                    "__getitem__") and \
+                    "session" not in norm(v.func.value)
+            return False
         reads_self_map = [n for n in walk_local(fn.node)
                           if isinstance(n, ast.Return) and n.value is not None
-                          and isinstance(n.value, (ast.Subscript, ast.Call))
-                          and norm(n.value).startswith("self._") and
-                          "session" not in norm(n.value)
-                          and "_file_path" not in norm(n.value)]
+                          and from_map(n.value)]
         ok = not stores and not reads_self_map
         col.add(rule, fn, "fetch_file keeps no copy of file contents", ok,
                 "" if ok else "fetch_file stores / returns file contents held "
